@@ -116,6 +116,10 @@ def run(ctx):
                       "watch_values -- Parameter.__set__ evaluates the reference before it validates, so a watcher registered there survives a rejected assignment", floor=1)
     ctx.rule("R02.u", "update model: Parameters._update interpreted abstractly (entry batching flag x key orders incl. an Event key x a rejected or unknown key at every position x a value identical to the current one, 60 cases): flag restored, flush exactly once iff outermost and after the restore, keys applied in order up to the failing one, Event mode and reset, complete previous-values mapping", floor=1)
     evaluation_registers_nothing(ctx, "R02.v")
+    ctx.rule("R02.k", "constructor model (shared with R05.k): Parameters._setup_params installs no link (no watcher on a source object) while keywords are still being applied -- a keyword rejected "
+                      "later must leave the watchers registered on every other object as they were", floor=1)
+    from checks import ctor_model
+    ctor_model.report(ctx, "C02", "R02.k")
     ctx.rule("R02.z", "no rejection after the one validator that may extend the Parameter: in Parameter.__set__ no raise is reachable (normal edges of the CFG) after self._validate(val) as "
                       "long as Selector._ensure_value_is_in_objects appends the offered value (check_on_set=False)", floor=1)
     no_rejection_after_a_validator_with_effects(ctx, "R02.z")
